@@ -5,7 +5,8 @@ model (`parser.parse` driver op) on the same call and canonicalising both answer
 Canonical answer (both sides):
     err <Kind>
     ok Y M D h m s us | <zone> | <tokens>
-  zone   : naive | warn <cps> | utc | fixed <name|N> <seconds> | local <fold> | obj <k> <fold> | str <cps> <fold>
+  zone   : naive | warn <cps> | utc | fixed <name|N> <seconds> | obj <k> <fold> | str <cps> <fold>
+           | local <fold> off<utcoffset s> dst<dst s> <tzname> same<tzinfo == a tzlocal() built now>
   tokens : -  |  [cps,cps,...]
 Text travels as code points (`49.50`, `-` empty) with Python's own character classes.
 """
@@ -20,8 +21,16 @@ def mchr(c):
     return chr(PUA + o - SUR_LO) if SUR_LO <= o <= SUR_HI else c
 
 
+_CPS = {}
+
+
 def cps(s):
-    return ".".join(str(ord(mchr(c))) for c in s) if s else "-"
+    r = _CPS.get(s)
+    if r is None:
+        r = ".".join(str(ord(mchr(c))) for c in s) if s else "-"
+        if len(s) <= 24 and len(_CPS) < 200000:
+            _CPS[s] = r
+    return r
 
 
 def cls_char(c):
@@ -121,11 +130,18 @@ def info_wire(info, custom):
     hd = "%d%d" % (1 if info.dayfirst else 0, 1 if info.yearfirst else 0)
     if not custom:
         return "D" + hd
+    key = (type(info), hd)                   # the class attributes of a subclass are read once per (class, flags)
+    if key in _INFO_WIRE:
+        return _INFO_WIRE[key]
     def groups(xs):
         return ",".join("|".join(cps(w) for w in (g if isinstance(g, tuple) else (g,))) for g in xs)
     tzo = ",".join("%s=%d" % (cps(k), v) for k, v in info.TZOFFSET.items())
-    return ":".join(["X" + hd, groups(info.JUMP), groups(info.WEEKDAYS), groups(info.MONTHS), groups(info.HMS),
-                     groups(info.AMPM), groups(info.UTCZONE), groups(info.PERTAIN), tzo])
+    _INFO_WIRE[key] = ":".join(["X" + hd, groups(info.JUMP), groups(info.WEEKDAYS), groups(info.MONTHS), groups(info.HMS),
+                                groups(info.AMPM), groups(info.UTCZONE), groups(info.PERTAIN), tzo])
+    return _INFO_WIRE[key]
+
+
+_INFO_WIRE = {}
 
 
 def custom_infos():
@@ -175,7 +191,7 @@ class Call:
 
     def key(self):
         d = self.default
-        return (self.text, (d.year, d.month, d.day, d.hour, d.minute, d.second, d.microsecond), self.dayfirst,
+        return (self.text, (d.year, d.month, d.day, d.hour, d.minute, d.second, d.microsecond, str(d.tzinfo)), self.dayfirst,
                 self.yearfirst, self.fuzzy, self.fwt, self.ignoretz, self.tz.key(),
                 None if self.info is None else (type(self.info).__name__, self.info.dayfirst, self.info.yearfirst),
                 os.environ.get("TZ"))
@@ -257,6 +273,9 @@ def exc_kind(e):
         return "ParserError"
     if isinstance(e, decimal.InvalidOperation):
         return "InvalidOperation"
+    import calendar
+    if isinstance(e, calendar.IllegalMonthError):
+        return "ValueError"                     # a ValueError subclass (the models say ValueError for monthrange's complaint)
     return type(e).__name__
 
 
@@ -270,9 +289,32 @@ def text_arg(call):
     return call.text
 
 
-def zone_of(dt, warned):
+def _secs(td):
+    return "N" if td is None else str(td.days * 86400 + td.seconds)
+
+
+def local_obs(aware):
+    """what a process-zone result really says at its wall time: utcoffset, dst, tzname (the tzlocal OBJECT is the
+    implementation's; a stale one — built under an earlier process zone — shows here)"""
+    try:
+        return "off%s dst%s %s" % (_secs(aware.utcoffset()), _secs(aware.dst()), optname(aware.tzname()))
+    except (OverflowError, OSError, ValueError) as e:
+        return "offerr " + type(e).__name__
+
+
+def local_desc(naive, fold):
+    """the expected descriptor of a process-zone result: a tzlocal built NOW, under the current process zone"""
+    from dateutil import tz
+    return "local %d %s same1" % (fold, local_obs(naive.replace(tzinfo=tz.tzlocal(), fold=fold)))
+
+
+def zone_of(dt, warned, dflt_tz=None):
     from dateutil import tz
     ti = dt.tzinfo
+    if dflt_tz is not None and ti is dflt_tz:
+        # no zone was applied to the result: it still carries the tzinfo OBJECT of an aware `default=` (the model's `.naive`
+        # / `.naiveWarn` descriptors mean exactly "default.replace(...) as it is")
+        return ("warn " + cps(warned) + " dflt") if warned is not None else "dflt"
     if ti is None:
         if warned is not None:
             return "warn " + cps(warned)
@@ -283,7 +325,7 @@ def zone_of(dt, warned):
     if ti is tz.UTC:
         return "utc" if dt.fold == 0 else "utc fold%d" % dt.fold
     if isinstance(ti, tz.tzlocal):
-        return "local %d" % dt.fold
+        return "local %d %s same%d" % (dt.fold, local_obs(dt), int(ti == tz.tzlocal()))
     if isinstance(ti, tz.tzoffset):
         return "fixed %s %d" % (optname(ti._name), int(ti._offset.total_seconds()))
     if isinstance(ti, tz.tzstr):
@@ -291,14 +333,22 @@ def zone_of(dt, warned):
     return "other " + type(ti).__name__
 
 
-def canon_ok(r, fwt, warned):
+def canon_ok(r, fwt, warned, dflt_tz=None):
+    # the SHAPE of the value is part of the answer: a (datetime, tuple of str) pair exactly when fuzzy_with_tokens was asked for
     if fwt:
+        if not (isinstance(r, tuple) and len(r) == 2 and isinstance(r[0], datetime.datetime) and isinstance(r[1], tuple)
+                and all(isinstance(x, str) for x in r[1])):
+            return "shape fuzzy_with_tokens=True returned %s" % (
+                "a bare datetime" if isinstance(r, datetime.datetime) else type(r).__name__)
         dt, toks = r
         t = "[" + ",".join(cps(x) for x in toks) + "]"
     else:
+        if not isinstance(r, datetime.datetime):
+            return "shape fuzzy_with_tokens=False returned %s" % (
+                "a (datetime, tokens) pair" if isinstance(r, tuple) else type(r).__name__)
         dt, t = r, "-"
     return "ok %d %d %d %d %d %d %d | %s | %s" % (dt.year, dt.month, dt.day, dt.hour, dt.minute, dt.second,
-                                                 dt.microsecond, zone_of(dt, warned), t)
+                                                 dt.microsecond, zone_of(dt, warned, dflt_tz), t)
 
 
 def run_impl(call, raw=False):
@@ -328,7 +378,7 @@ def run_impl(call, raw=False):
         if issubclass(x.category, UnknownTimezoneWarning):
             m = re.match(r"tzname (.*) identified but not understood", str(x.message), re.S)
             warned = m.group(1) if m else "?"
-    return canon_ok(r, call.fwt, warned), dt, (r if raw else None)
+    return canon_ok(r, call.fwt, warned, getattr(call.default, "tzinfo", None)), dt, (r if raw else None)
 
 
 _ZONE2 = re.compile(r"^(ok [-\d ]+) \| (local|tzi) (.*?) \| (.*)$", re.S)
@@ -338,6 +388,15 @@ def model_answers(ctx, calls):
     """model's canonical answers for calls made under the CURRENT process TZ (two driver phases)"""
     from dateutil import tz
     first = ctx.driver([request(c) for c in calls])
+    # an aware `default=`: where the model applies no zone (`.naive` / `.naiveWarn`) the result keeps the default's tzinfo
+    for i, (c, r) in enumerate(zip(calls, first)):
+        if getattr(c.default, "tzinfo", None) is not None and r.startswith("ok "):
+            parts = r.split(" | ")
+            if parts[1] == "naive":
+                parts[1] = "dflt"
+            elif parts[1].startswith("warn "):
+                parts[1] += " dflt"
+            first[i] = " | ".join(parts)
     out = list(first)
     second, where = [], []
     for i, (c, r) in enumerate(zip(calls, first)):
@@ -363,7 +422,7 @@ def model_answers(ctx, calls):
                 out[i] = "err OverflowError"
                 continue
             second.append("parser.localfinal %s %s %s" % (optname(n0), optname(n1), name))
-            where.append((i, head, "local", None, toks))
+            where.append((i, head, "local", naive, toks))
         else:
             data, name = rest.split(" ")
             if data == "n":
@@ -372,13 +431,11 @@ def model_answers(ctx, calls):
             if data[0] == "o":
                 k = int(data[1:]); z = tzobjs()[k]; lab = "obj %d" % k
             elif data[0] == "s":
-                s = "".join(chr(int(x)) for x in data[1:].split(".")) if data[1:] != "-" else ""
-                try:
-                    z = tz.tzstr(s)
-                except Exception as e:
-                    out[i] = "err " + exc_kind(e)       # tzstr's own ValueError: outside the model
-                    continue
-                lab = "str %s" % data[1:]
+                # a TZ string: the zone's names for the wall time come from the LEAN model of tz.tzstr (parser.assignstr:
+                # TzStr.tzstr + transitions), never from the implementation's object — the model answer is Lean's alone
+                second.append("parser.assignstr %s [%s] %s" % (data[1:], ",".join(str(x) for x in f), name))
+                where.append((i, head, "tzi", "str %s" % data[1:], toks))
+                continue
             else:
                 out[i] = "bad-model-zone " + r
                 continue
@@ -393,8 +450,13 @@ def model_answers(ctx, calls):
     if second:
         res = ctx.driver(second)
         for (i, head, kind, lab, toks), r in zip(where, res):
+            if r.startswith("err "):
+                out[i] = r                      # the zone object's exception at `tzname()` (a TZ string whose rule is bad)
+                continue
             if kind == "local":
                 z = r[3:]                       # "utc" | "local f"
+                if z.startswith("local "):
+                    z = local_desc(lab, int(z.split()[1]))
             else:
                 z = "%s %s" % (lab, r[3:])
             out[i] = "%s | %s | %s" % (head, z, toks)
@@ -410,6 +472,198 @@ def set_tz(name):
         os.environ["TZ"] = name
     time.tzset()
     return prev
+
+
+# ---------------------------------------------------------------- state shared between calls (class / module level)
+def ast_shared_state_sites(repo):
+    """everything in _parser.py through which one call could leave something behind for the next: every class-level and
+    module-level assignment (any value, also an immutable one that a method rebinds), every `global` / `nonlocal`, every store
+    to an attribute of `cls` / `self.__class__` / `type(self)` / a module-level name, every `setattr`, every store to `self.x`
+    in a method of parser / parserinfo outside __init__ (DEFAULTPARSER and its parserinfo are one shared instance), every
+    caching decorator, every mutable default argument — in ALL functions of the file, modelled or not"""
+    import ast, collections
+    path = os.path.join(repo, "src", "dateutil", "parser", "_parser.py")
+    tree = ast.parse(open(path).read())
+    sites = collections.Counter()
+    modnames = set()
+    for node in tree.body:
+        if isinstance(node, (ast.ClassDef, ast.FunctionDef)):
+            modnames.add(node.name)
+        elif isinstance(node, (ast.Assign, ast.AnnAssign, ast.AugAssign)):
+            tg = node.targets if isinstance(node, ast.Assign) else [node.target]
+            for t in tg:
+                for e in ast.walk(t):
+                    if isinstance(e, ast.Name):
+                        modnames.add(e.id)
+            sites["module:assign:%s" % ast.unparse(node)[:100]] += 1
+
+    def base_name(e):
+        while isinstance(e, (ast.Attribute, ast.Subscript)):
+            e = e.value
+        return e
+
+    def scan_func(cname, fn):
+        q = "%s.%s" % (cname or "", fn.name)
+        for d in fn.decorator_list:
+            src = ast.unparse(d)
+            if any(w in src.lower() for w in ("cache", "lru", "memo")):
+                sites["%s:caching-decorator:%s" % (q, src[:80])] += 1
+            if src in ("classmethod", "staticmethod"):
+                sites["%s:%s" % (q, src)] += 1
+        for a in list(fn.args.defaults) + [x for x in fn.args.kw_defaults if x is not None]:
+            if isinstance(a, (ast.List, ast.Dict, ast.Set, ast.Call, ast.ListComp, ast.DictComp, ast.SetComp)):
+                sites["%s:mutable-default:%s" % (q, ast.unparse(a)[:80])] += 1
+        for n in ast.walk(fn):
+            if isinstance(n, (ast.Global, ast.Nonlocal)):
+                sites["%s:%s:%s" % (q, type(n).__name__.lower(), ",".join(n.names))] += 1
+            tgts = []
+            if isinstance(n, ast.Assign):
+                tgts = n.targets
+            elif isinstance(n, (ast.AugAssign, ast.AnnAssign)):
+                tgts = [n.target]
+            elif isinstance(n, ast.Delete):
+                tgts = n.targets
+            for t in tgts:
+                for e in (t.elts if isinstance(t, (ast.Tuple, ast.List)) else [t]):
+                    if not isinstance(e, (ast.Attribute, ast.Subscript)):
+                        continue
+                    b = base_name(e)
+                    src = ast.unparse(e)
+                    if isinstance(b, ast.Name) and b.id == "cls":
+                        sites["%s:class-store:%s" % (q, src[:100])] += 1
+                    elif isinstance(b, ast.Call) and ast.unparse(b.func) == "type":
+                        sites["%s:class-store:%s" % (q, src[:100])] += 1
+                    elif "__class__" in src or "__dict__" in src:
+                        sites["%s:class-store:%s" % (q, src[:100])] += 1
+                    elif isinstance(b, ast.Name) and b.id in modnames and b.id not in ("self",):
+                        # a local of the same name shadows the module-level one only if assigned as a plain name in the function
+                        local = any(isinstance(m, ast.Name) and m.id == b.id and isinstance(m.ctx, ast.Store) for m in ast.walk(fn))
+                        if not local:
+                            sites["%s:module-store:%s" % (q, src[:100])] += 1
+                    elif (isinstance(b, ast.Name) and b.id == "self" and cname in ("parser", "parserinfo")
+                          and fn.name != "__init__"):
+                        sites["%s:shared-instance-store:%s" % (q, src[:100])] += 1
+            if isinstance(n, ast.Call) and ast.unparse(n.func) in ("setattr", "object.__setattr__", "globals", "vars"):
+                sites["%s:%s:%s" % (q, ast.unparse(n.func), ast.unparse(n)[:100])] += 1
+
+    for node in tree.body:
+        if isinstance(node, ast.ClassDef):
+            for n in node.body:
+                if isinstance(n, (ast.Assign, ast.AnnAssign, ast.AugAssign)):
+                    sites["%s:class-attr:%s" % (node.name, ast.unparse(n)[:100])] += 1
+                elif isinstance(n, ast.FunctionDef):
+                    scan_func(node.name, n)
+            for d in node.decorator_list:
+                sites["%s:class-decorator:%s" % (node.name, ast.unparse(d)[:80])] += 1
+        elif isinstance(node, ast.FunctionDef):
+            scan_func(None, node)
+    return sites
+
+
+# ---------------------------------------------------------------- process-zone switches
+def fresh_start(steps):
+    """start a fresh Python process that evaluates `steps` = [(TZ, case dict)]; returns the Popen (collect with fresh_collect)"""
+    import subprocess, json
+    env = dict(os.environ)
+    env["TZ"] = steps[0][0] if steps and steps[0][0] is not None else "UTC"
+    p = subprocess.Popen([sys.executable, os.path.join(os.path.dirname(os.path.abspath(__file__)), "_parser_ref.py")],
+                         stdin=subprocess.PIPE, stdout=subprocess.PIPE, stderr=subprocess.PIPE, env=env)
+    p._payload = json.dumps({"steps": [{"TZ": tz, "case": c} for tz, c in steps]}).encode()
+    return p
+
+
+def fresh_collect(p):
+    import json
+    out, err = p.communicate(p._payload, timeout=600)
+    if p.returncode != 0:
+        raise RuntimeError("fresh-process reference failed: " + err.decode("utf-8", "replace")[-400:])
+    return json.loads(out.decode())["answers"]
+
+
+def fresh_answers(steps):
+    return fresh_collect(fresh_start(steps))
+
+
+def zone_switch_run(ctx, rng, groups, n_texts, what):
+    """The process-zone switch family.  For every group of TZ settings that SHARE entries of time.tzname but differ in offset /
+    DST rules / hemisphere: the same calls are made under every zone of the group, switching with time.tzset() between calls
+    (a -> b -> a ...), and every answer is compared with (1) the model's answer for that zone and (2) the implementation's
+    answer in a fresh process whose only zone that was.  A difference is state that one call (or one zone) left behind."""
+    from props import _parser_gen as G
+    shown = 0
+    for gi, grp in enumerate(groups):
+        calls = G.zone_switch_calls(rng, grp, n_texts)
+        cases = [c.describe() for c in calls]
+        procs = {z: fresh_start([(z, c) for c in cases]) for z in grp}
+        model = {}
+        for z in grp:
+            set_tz(z)
+            model[z] = model_answers(ctx, calls)
+        ref = {z: fresh_collect(procs[z]) for z in grp}
+        # the interleaved sequence
+        steps = []
+        for j in range(len(calls)):
+            zs = rng.sample(grp, min(len(grp), rng.choice([2, 2, 3])))
+            for z in zs + [zs[0]]:
+                steps.append((z, j))
+        # blocks stay together (a -> b -> a on one text), block order is random; then a fully shuffled tail
+        tail = [(rng.choice(grp), rng.randrange(len(calls))) for _ in range(len(calls))]
+        history = []
+        for z, j in steps + tail:
+            set_tz(z)
+            a = run_impl(calls[j])[0]
+            history.append((z, j))
+            ctx.evaluations += 1
+            ctx.count("zone_switch_calls")
+            ctx.case(("zone-switch", gi, z, calls[j].key()), nontrivial=" | local " in a)
+            if " | local " in a:
+                ctx.count("zone_switch_local_results")
+            if a != model[z][j] or a != ref[z][j]:
+                case = calls[j].describe()
+                case["TZ"] = z
+                # shortest recorded zone sequence that shows it in a fresh process: (other zone, same text) then this call
+                seq = None
+                if shown < 4:
+                    for z0 in grp:
+                        if z0 != z:
+                            try:
+                                r = fresh_answers([(z0, cases[j]), (z, cases[j])])
+                            except Exception:
+                                continue
+                            if r[1] != ref[z][j]:
+                                seq = [[z0, cases[j]["text"]]]
+                                break
+                if seq is None:
+                    seq = [[zz, cases[jj]["text"]] for zz, jj in history[-60:-1]]
+                case["TZ_sequence"] = seq
+                shown += 1
+                ctx.violation(what + ": the answer under a process zone depends on the zones / calls before it (time.tzset between "
+                              "calls; zones sharing an abbreviation)", case,
+                              {"impl": a, "model_for_this_TZ": model[z][j], "fresh_process_for_this_TZ": ref[z][j],
+                               "time.tzname": list(time.tzname)})
+                if shown >= 12:
+                    return
+
+
+def zone_switch_replay(ctx, c):
+    """replay of a zone_switch_run violation in a fresh process: the recorded (TZ, text) sequence, then the call"""
+    call = call_from_case(c)
+    case = call.describe()
+    steps = []
+    for z, t in c.get("TZ_sequence") or []:
+        d = dict(case); d["text"] = t
+        steps.append((z, d))
+    steps.append((c.get("TZ"), case))
+    got = fresh_answers(steps)[-1]
+    ref = fresh_answers([(c.get("TZ"), case)])[0]
+    prev = set_tz(c.get("TZ"))
+    try:
+        m = model_answers(ctx, [call])[0]
+    finally:
+        set_tz(prev)
+    print("zone sequence %s then TZ=%s parse(%s): after-sequence=%s fresh-process=%s model=%s"
+          % ([z for z, _ in steps[:-1]], c.get("TZ"), ascii(call.text), got, ref, m))
+    return got == ref == m
 
 
 # ---------------------------------------------------------------- assumption audit (per run)
@@ -491,6 +745,66 @@ def ast_sites(repo):
     extra = [("%s.%s" % k) for k in funcs if k[0] in ("_timelex", "parserinfo", "_ymd", "parser", "_resultbase")
              and k not in MODELLED_FUNCS and k[1] not in ("__repr__", "_repr", "next")]
     return sites, missing, extra
+
+
+# ---------------------------------------------------------------- callees outside _parser.py
+# (file, class, function, the model primitive that stands for it) — the code `parse` reaches outside its own file
+CALLEES = [
+    ("tz/tz.py", "tzstr", "__init__", "PM.tzstrCtor = TzStr.tzstr (C08's model; ValueError 'unknown string format', OverflowError)"),
+    ("tz/tz.py", "tzstr", "_delta", "TzStr.delta (inside TzStr.tzstr)"),
+    ("tz/tz.py", "tzrange", "transitions", "TzStr.transitions / applyDelta (month 13 -> ValueError at query time; PM.strIsdst)"),
+    ("tz/_common.py", "tzrangebase", "tzname", "PM.strNames"),
+    ("tz/_common.py", "tzrangebase", "_isdst", "PM.strIsdst"),
+    ("tz/_common.py", "tzrangebase", "is_ambiguous", "PM.strIsdst (the `amb` test)"),
+    ("tz/_common.py", "tzrangebase", "_naive_isdst", "PM.strIsdst (the `d` test)"),
+    ("tz/tz.py", "tzlocal", "__init__", "environment: -time.timezone / -time.altzone (fed as the names / offsets a tzlocal() built now reports)"),
+    ("tz/tz.py", "tzlocal", "tzname", "environment: n0 / n1 of parser.localfinal"),
+    ("tz/tz.py", "tzlocal", "_isdst", "environment (OverflowError next to 0001-01-01 / 9999-12-31 propagates unchanged)"),
+    ("tz/tz.py", "tzlocal", "_naive_is_dst", "environment"),
+    ("tz/tz.py", "tzlocal", "is_ambiguous", "environment"),
+    ("tz/tz.py", "tzoffset", "__init__", "PM.fixedZone (timedelta(seconds=n): OverflowError)"),
+    ("tz/tz.py", "tzutc", "tzname", "descriptor .utc"),
+    ("tz/_common.py", None, "enfold", "PM.assignFold (fold = 1)"),
+    ("relativedelta.py", "relativedelta", "__init__", "PM.shiftBareWeekday (weekday=…(+1)) / TzStr.delta"),
+    ("relativedelta.py", "relativedelta", "__add__", "PM.shiftBareWeekday (OverflowError past 9999-12-31) / TzStr.applyDelta"),
+    ("relativedelta.py", "relativedelta", "__radd__", "= __add__"),
+]
+
+
+def ast_callee_sites(repo):
+    """Call / Raise / Subscript / BinOp / Compare nodes of the functions `parse` reaches OUTSIDE _parser.py (zone objects it
+    builds and queries, relativedelta arithmetic), as `file:Class.func:kind:source` with multiplicity, each function mapped to
+    the model primitive that stands for it"""
+    import ast, collections
+    sites = collections.Counter()
+    missing = []
+    trees = {}
+    for rel, cname, fname, _prim in CALLEES:
+        if rel not in trees:
+            try:
+                trees[rel] = ast.parse(open(os.path.join(repo, "src", "dateutil", rel)).read())
+            except OSError:
+                trees[rel] = None
+        tree = trees[rel]
+        fn = None
+        if tree is not None:
+            for node in ast.walk(tree):
+                if cname is None and isinstance(node, ast.FunctionDef) and node.name == fname and fn is None:
+                    fn = node                    # (enfold is defined inside an `if`: the first definition, the one Python 3 uses)
+                elif isinstance(node, ast.ClassDef) and node.name == cname:
+                    for n in node.body:
+                        if isinstance(n, ast.FunctionDef) and n.name == fname:
+                            fn = n
+        if fn is None:
+            missing.append("%s:%s.%s" % (rel, cname or "", fname))
+            continue
+        for n in ast.walk(fn):
+            if isinstance(n, (ast.Call, ast.Subscript, ast.BinOp, ast.Raise, ast.Compare, ast.Assert)):
+                src = ast.unparse(n)
+                if isinstance(n, ast.Raise):
+                    src = "raise " + (ast.unparse(n.exc.func) if isinstance(n.exc, ast.Call) else ast.unparse(n.exc) if n.exc else "")
+                sites["%s:%s.%s:%s:%s" % (rel, cname or "", fname, type(n).__name__, src[:140])] += 1
+    return sites, missing
 
 
 # ---------------------------------------------------------------- writes into argument-derived structures
